@@ -113,6 +113,23 @@ func Main(spec *Spec, tier string) int {
 	}
 	deadline := start.Add(budget)
 	scs := spec.Scenarios(tier)
+	// development aid: VERIF_SCENARIO=<substring> runs the matching scenarios in-process and prints their outcome sets
+	if pat := os.Getenv("VERIF_SCENARIO"); pat != "" {
+		for i, sc := range scs {
+			if !strings.Contains(sc.Name, pat) {
+				continue
+			}
+			r := runScenario(i, sc, deadline)
+			fmt.Printf("scenario %q: executions=%d states=%d capped=%q\n", sc.Name, r.Executions, r.States, r.Capped)
+			for o, n := range r.Outcomes {
+				fmt.Printf("  %6dx %s\n", n, o)
+			}
+			for _, f := range r.Failures {
+				fmt.Printf("  failure: %s choices=%v\n", f.Verdict, f.Choices)
+			}
+		}
+		return 0
+	}
 	nsh := 1
 	if spec.Shards != nil {
 		nsh = spec.Shards(tier)
